@@ -503,7 +503,14 @@ def _build_block_stacks(
         if next_template:
             base = next_template
 
-    assert base
+    if not base:
+        # The tag was rendered in the context of a template that does not extend
+        # anything, like a macro body called from a different template.
+        raise TemplateInheritanceError(
+            f"no {tag!r} tag found in template {template.name!r}",
+            token=None,
+            template_name=template.full_name(),
+        )
     return base
 
 
@@ -556,7 +563,14 @@ async def _build_block_stacks_async(
         if next_template:
             base = next_template
 
-    assert base
+    if not base:
+        # The tag was rendered in the context of a template that does not extend
+        # anything, like a macro body called from a different template.
+        raise TemplateInheritanceError(
+            f"no {tag!r} tag found in template {template.name!r}",
+            token=None,
+            template_name=template.full_name(),
+        )
     return base
 
 
